@@ -2,6 +2,7 @@
 """C09 Accelerated (compiled) matcher and reference matcher return the same mappings -- layout / predicate-set clauses."""
 from ..r_matcher import run_matcher_rules
 from ..r_hygiene import rule_hygiene as _rule_hygiene
+from ..r_rings import rule_hybridization_table as _rule_hyb
 
 LEVEL = 'other'
 
@@ -19,3 +20,4 @@ def run(ck, repo):
                      'the search loop of the .pyx (stack handling, closure bookkeeping) vs the python generator: control-flow equivalence is not decided']
     run_matcher_rules(ck, repo, ck.tier == 'thorough')
     _rule_hygiene(ck, repo, 'C09.H-dataflow-hygiene', 'C09')
+    _rule_hyb(ck, repo, 'C09.D4-hybridization')
